@@ -46,6 +46,7 @@ HARNESSES = [
          encodes=["tinylfu_cached::cache::store::stored_value::StoredValue::{expiring,never_expiring,is_alive,calculate_expiry,expire_after}", "tinylfu_cached::cache::clock::Clock::has_passed"]),
     dict(name="c09_ttl_change_then_look", file="stored_value.rs", props=["C09", "C08"], timeout=300,
          encodes=["tinylfu_cached::cache::store::stored_value::StoredValue::{expiring,never_expiring,is_alive,update,calculate_expiry,expire_after}", "tinylfu_cached::cache::clock::Clock::has_passed"]),
+    dict(name="c09_time_construction_is_faithful", file="stored_value.rs", props=["C09", "C10"], timeout=120, encodes=["harness support: SystemTime construction vs std arithmetic"]),
     dict(name="c09_clock_has_passed_kernel", file="stored_value.rs", props=["C09"], timeout=120, encodes=["tinylfu_cached::cache::clock::Clock::has_passed"]),
     # ---------------------------------------------------------------- C12 acknowledgement
     dict(name="c12_done_races_poll", file="acknowledgement.rs", props=["C12", "C18"], timeout=300,
@@ -55,7 +56,7 @@ HARNESSES = [
     dict(name="c12_preresolved", file="acknowledgement.rs", props=["C12"], timeout=120,
          encodes=["tinylfu_cached::cache::command::acknowledgement::CommandAcknowledgement::{accepted,rejected}"]),
     # ---------------------------------------------------------------- cache weight (C01/C05/C16) and sampler (C06)
-    dict(name="c05_cache_weight_step", file="cache_weight.rs", props=["C05", "C01", "C16", "C03", "C18"], timeout=400,
+    dict(name="c05_cache_weight_step", file="cache_weight.rs", props=["C05", "C01", "C16", "C03", "C18", "C17"], timeout=400,
          encodes=["tinylfu_cached::cache::policy::cache_weight::CacheWeight::{is_space_available_for,add,update,delete,clear,contains,weight_of,update_weight_stats}"]),
     dict(name="c06_sampled_key_order_kernel", file="cache_weight.rs", props=["C06"], timeout=120,
          encodes=["tinylfu_cached::cache::policy::cache_weight::SampledKey::{cmp,partial_cmp,eq}"]),
@@ -69,16 +70,16 @@ HARNESSES = [
     dict(name="c02_store_write_step", file="store.rs", props=["C02", "C03"], timeout=600,
          encodes=["tinylfu_cached::cache::store::Store::{put,put_with_ttl,delete,mark_deleted,update,clear}", "UpdateResponse::{did_update_happen,existing_expiry,new_expiry,value,key_id_or_panic}"]),
     # ---------------------------------------------------------------- admission (C06, C01, C03)
-    dict(name="c06_maybe_add_rule_1_resident", file="admission_policy.rs", props=["C06", "C01", "C03"], timeout=1200, tier="quick",
+    dict(name="c06_maybe_add_rule_1_resident", file="admission_policy.rs", props=["C06", "C01", "C03"], timeout=1200,
          encodes=["tinylfu_cached::cache::policy::admission_policy::AdmissionPolicy::{maybe_add,create_space,estimate}", "CacheWeight::{is_space_available_for,add,delete,sample}",
                   "FrequencyCounterBasedMinHeapSamples::{new,initial_sample,min_frequency_key,maybe_fill_in}", "TinyLFU::estimate", "FrequencyCounter::estimate", "DoorKeeper::has"]),
-    dict(name="c06_maybe_add_rule_2_residents", file="admission_policy.rs", props=["C06", "C01", "C18"], timeout=1200, tier="quick",
+    dict(name="c06_maybe_add_rule_2_residents", file="admission_policy.rs", props=["C06", "C01", "C18"], timeout=1200,
          encodes=["tinylfu_cached::cache::policy::admission_policy::AdmissionPolicy::{maybe_add,create_space,estimate}", "CacheWeight::{is_space_available_for,add,delete,sample}",
                   "FrequencyCounterBasedMinHeapSamples::{new,initial_sample,min_frequency_key,maybe_fill_in}", "TinyLFU::estimate", "FrequencyCounter::estimate", "DoorKeeper::has"]),
-    dict(name="c06_maybe_add_rule_3_residents", file="admission_policy.rs", props=["C06", "C01"], timeout=1200, tier="quick",
+    dict(name="c06_maybe_add_rule_3_residents", tier="thorough", file="admission_policy.rs", props=["C06", "C01"], timeout=1200,
          encodes=["tinylfu_cached::cache::policy::admission_policy::AdmissionPolicy::{maybe_add,create_space,estimate}", "CacheWeight::{is_space_available_for,add,delete,sample}",
                   "FrequencyCounterBasedMinHeapSamples::{new,initial_sample,min_frequency_key,maybe_fill_in}", "TinyLFU::estimate", "FrequencyCounter::estimate", "DoorKeeper::has"]),
-    dict(name="c06_maybe_add_rule_any_residents", file="admission_policy.rs", props=["C06", "C01"], timeout=1200, tier="thorough",
+    dict(name="c06_maybe_add_rule_any_residents", tier="thorough", file="admission_policy.rs", props=["C06", "C01"], timeout=1200,
          encodes=["tinylfu_cached::cache::policy::admission_policy::AdmissionPolicy::{maybe_add,create_space,estimate}", "CacheWeight::{is_space_available_for,add,delete,sample}",
                   "FrequencyCounterBasedMinHeapSamples::{new,initial_sample,min_frequency_key,maybe_fill_in}", "TinyLFU::estimate", "FrequencyCounter::estimate", "DoorKeeper::has"]),
     # ---------------------------------------------------------------- whole CacheD: reads (C02)
@@ -110,7 +111,7 @@ HARNESSES = [
          encodes=["tinylfu_cached::cache::cached::CacheD::{put,put_with_weight,put_with_ttl,put_with_weight_and_ttl,key_description}", "Store::is_present", "CommandExecutor::send", "Calculation::perform", "CommandAcknowledgement::{new,rejected}"]),
     dict(name="c07_put_client_step_q3", group="c07_put_client_step", file="cached.rs", props=["C07"], timeout=900,
          encodes=["tinylfu_cached::cache::cached::CacheD::{put,put_with_weight,put_with_ttl,put_with_weight_and_ttl,key_description}", "Store::is_present", "CommandExecutor::send", "Calculation::perform", "CommandAcknowledgement::{new,rejected}"]),
-    dict(name="c04_delete_hides_then_releases_q0", group="c04_delete_hides_then_releases", file="cached.rs", props=["C04", "C16", "C18"], timeout=900,
+    dict(name="c04_delete_hides_then_releases_q0", tier="thorough", group="c04_delete_hides_then_releases", file="cached.rs", props=["C04", "C16", "C18"], timeout=900,
          encodes=["tinylfu_cached::cache::cached::CacheD::{delete,get,get_ref,put_with_weight,total_weight_used}", "Store::{mark_deleted,delete}", "CommandExecutor::{send,spin (worker closure),delete}", "AdmissionPolicy::delete", "CacheWeight::delete", "TTLTicker::delete", "CommandAcknowledgementHandle::{done,poll}"]),
     dict(name="c04_delete_hides_then_releases_q1", group="c04_delete_hides_then_releases", file="cached.rs", props=["C04"], timeout=900,
          encodes=["tinylfu_cached::cache::cached::CacheD::{delete,get,get_ref,put_with_weight,total_weight_used}", "Store::{mark_deleted,delete}", "CommandExecutor::{send,spin (worker closure),delete}", "AdmissionPolicy::delete", "CacheWeight::delete", "TTLTicker::delete", "CommandAcknowledgementHandle::{done,poll}"]),
@@ -146,7 +147,15 @@ HARNESSES = [
     dict(name="c10_index_tracks_current_expiry", file="expiration.rs", props=["C10", "C03"], timeout=900,
          encodes=["tinylfu_cached::cache::expiration::TTLTicker::{put,update,delete,get,shard_index}"]),
     # ---------------------------------------------------------------- access pipeline (C15)
-    dict(name="c15_pool_add_accounting_step", file="pool.rs", props=["C15", "C18"], timeout=600,
+    dict(name="c15_pool_add_b1_empty", group="c15_pool_add", file="pool.rs", props=["C15"], timeout=600,
+         encodes=["tinylfu_cached::cache::pool::Pool::{new,add}", "Buffer::{new,add}", "AdmissionPolicy::accept (select! try-send)"]),
+    dict(name="c15_pool_add_b1_full", group="c15_pool_add", file="pool.rs", props=["C15"], timeout=600,
+         encodes=["tinylfu_cached::cache::pool::Pool::{new,add}", "Buffer::{new,add}", "AdmissionPolicy::accept (select! try-send)"]),
+    dict(name="c15_pool_add_b2_half", group="c15_pool_add", file="pool.rs", props=["C15"], timeout=600,
+         encodes=["tinylfu_cached::cache::pool::Pool::{new,add}", "Buffer::{new,add}", "AdmissionPolicy::accept (select! try-send)"]),
+    dict(name="c15_pool_add_b2_full", group="c15_pool_add", file="pool.rs", props=["C15", "C18"], timeout=600,
+         encodes=["tinylfu_cached::cache::pool::Pool::{new,add}", "Buffer::{new,add}", "AdmissionPolicy::accept (select! try-send)"]),
+    dict(name="c15_pool_add_two_buffers", group="c15_pool_add", file="pool.rs", props=["C15", "C18"], timeout=600,
          encodes=["tinylfu_cached::cache::pool::Pool::{new,add}", "Buffer::{new,add}", "AdmissionPolicy::accept (select! try-send)"]),
     # ---------------------------------------------------------------- small kernels
     dict(name="c05_ids_are_fresh", file="id_generator.rs", props=["C05", "C11"], timeout=120, encodes=["tinylfu_cached::cache::unique_id::increasing_id_generator::IncreasingIdGenerator::{new,next}"]),
@@ -154,21 +163,29 @@ HARNESSES = [
     dict(name="c08_updated_weight_kernel", file="put_or_update.rs", props=["C08"], timeout=120, encodes=["tinylfu_cached::cache::put_or_update::PutOrUpdateRequest::updated_weight"]),
     dict(name="c08_builder_builds_wellformed_requests", file="put_or_update.rs", props=["C08", "C17"], timeout=120, encodes=["tinylfu_cached::cache::put_or_update::PutOrUpdateRequestBuilder::{new,value,weight,time_to_live,remove_time_to_live,build}"]),
     # ---------------------------------------------------------------- bursts, shutdown, sweep end to end, consumer
-    dict(name="c11_unawaited_burst_in_order", file="cached.rs", props=["C11", "C18"], timeout=1200,
+    dict(name="c11_unawaited_burst_queue_of_1", tier="thorough", group="c11_unawaited_burst", file="cached.rs", props=["C11", "C18"], timeout=1200,
          encodes=["tinylfu_cached::cache::cached::CacheD::{put_with_weight,delete,get}", "CommandExecutor::{send,spin (worker closure)}", "crossbeam_channel (model): blocking send on a full queue"]),
-    dict(name="c13_shutdown_gate_and_drain", file="cached.rs", props=["C13", "C18"], timeout=1200,
+    dict(name="c11_unawaited_burst_queue_of_2", tier="thorough", group="c11_unawaited_burst", file="cached.rs", props=["C11", "C18"], timeout=1200,
+         encodes=["tinylfu_cached::cache::cached::CacheD::{put_with_weight,delete,get}", "CommandExecutor::{send,spin (worker closure)}", "crossbeam_channel (model): blocking send on a full queue"]),
+    dict(name="c13_shutdown_gate_and_drain_queue_of_1", tier="thorough", group="c13_shutdown_gate_and_drain", file="cached.rs", props=["C13", "C18"], timeout=1200,
          encodes=["tinylfu_cached::cache::cached::CacheD::{shutdown,is_shutting_down + every read and write entry point}", "CommandExecutor::{shutdown,spin (worker closure: Shutdown arm + drain)}", "AdmissionPolicy::{shutdown,clear}", "TTLTicker::{shutdown,clear}", "Store::clear"]),
-    dict(name="c13_late_send_races_drain", file="cached.rs", props=["C13", "C12"], timeout=900,
+    dict(name="c13_shutdown_gate_and_drain_queue_of_2", tier="thorough", group="c13_shutdown_gate_and_drain", file="cached.rs", props=["C13", "C18"], timeout=1200,
+         encodes=["tinylfu_cached::cache::cached::CacheD::{shutdown,is_shutting_down + every read and write entry point}", "CommandExecutor::{shutdown,spin (worker closure: Shutdown arm + drain)}", "AdmissionPolicy::{shutdown,clear}", "TTLTicker::{shutdown,clear}", "Store::clear"]),
+    dict(name="c13_late_send_races_drain", tier="thorough", file="cached.rs", props=["C13", "C12"], timeout=900,
          encodes=["tinylfu_cached::cache::command::command_executor::CommandExecutor::{shutdown,send,spin (worker closure: Shutdown arm + drain loop)}", "CommandAcknowledgementHandle::done"]),
     dict(name="c13_command_behind_shutdown_is_answered", file="cached.rs", props=["C13", "C12"], timeout=900,
          encodes=["tinylfu_cached::cache::command::command_executor::CommandExecutor::{shutdown,send,spin (worker closure: drain loop)}"]),
-    dict(name="c10_sweep_with_stale_entry", file="cached.rs", props=["C10"], timeout=1200,
+    dict(name="c10_sweep_with_stale_entry", tier="thorough", file="cached.rs", props=["C10"], timeout=1200,
          encodes=["tinylfu_cached::cache::expiration::TTLTicker::spin (sweeper closure)", "CacheD::ttl_ticker (evict hook)", "AdmissionPolicy::delete_with_hook", "CacheWeight::delete"]),
-    dict(name="c10_sweep_end_to_end", file="cached.rs", props=["C10", "C18"], timeout=1200,
+    dict(name="c10_sweep_end_to_end", tier="thorough", group="c10_sweep_end_to_end", file="cached.rs", props=["C10"], timeout=1200,
+         encodes=["tinylfu_cached::cache::expiration::TTLTicker::spin (sweeper closure)", "CacheD::ttl_ticker (evict hook)", "AdmissionPolicy::delete_with_hook", "CacheWeight::delete", "Store::delete"]),
+    dict(name="c10_sweep_end_to_end_later_tick", tier="thorough", group="c10_sweep_end_to_end", file="cached.rs", props=["C10", "C18"], timeout=1200,
+         encodes=["tinylfu_cached::cache::expiration::TTLTicker::spin (sweeper closure)", "CacheD::ttl_ticker (evict hook)", "AdmissionPolicy::delete_with_hook", "CacheWeight::delete", "Store::delete"]),
+    dict(name="c10_sweep_end_to_end_other_shard", tier="thorough", group="c10_sweep_end_to_end", file="cached.rs", props=["C10"], timeout=1200,
          encodes=["tinylfu_cached::cache::expiration::TTLTicker::spin (sweeper closure)", "CacheD::ttl_ticker (evict hook)", "AdmissionPolicy::delete_with_hook", "CacheWeight::delete", "Store::delete"]),
     dict(name="c15_consumer_applies_each_batch_once", file="admission_policy.rs", props=["C15"], timeout=900,
          encodes=["tinylfu_cached::cache::policy::admission_policy::AdmissionPolicy::{with_channel_capacity,start (consumer closure),accept,estimate}", "TinyLFU::{new,increment_access}"]),
-    dict(name="c15_consumer_races_estimate", file="admission_policy.rs", props=["C15"], timeout=900,
+    dict(name="c15_consumer_races_estimate", tier="thorough", file="admission_policy.rs", props=["C15"], timeout=900,
          encodes=["tinylfu_cached::cache::policy::admission_policy::AdmissionPolicy::{start (consumer closure),estimate,accept}"]),
     dict(name="c13_consumer_stops_on_shutdown", file="admission_policy.rs", props=["C13"], timeout=900,
          encodes=["tinylfu_cached::cache::policy::admission_policy::AdmissionPolicy::{shutdown,clear,accept,start (consumer closure)}"]),
